@@ -397,27 +397,27 @@ _ADDED = {
            "the dumped matrix object must be a set of positions (consistent, duplicate-free adjacency lists); a panic of a float implementation is counted, not judged",
     "C02": "a third of the matrices are rebuilt with their ones inserted in random order; staircase codes with 250-700 systematic bits on one check and dense messages; "
            "near-staircase matrices with a moved one (same number of ones); messages passed as owned arrays, reversed (stride -1) views and strided views",
-    "C03": "forests with erasures (exact-zero LLRs); the robustness margin looks at computed LLRs only",
-    "C04": "the predicate also evaluates the proved tracking bound against the real rule (C04Track)",
-    "C05": "a quarter of the float layered updates with exact magnitude ties and exact-zero extrinsic values",
-    "C06": "one judged line per code: Encoder::from_h (in a forked child with a CPU-time alarm) must return the Staircase encoder and encode to codewords; girth_with_max(6) of rate 1/2 must be 6",
+    "C03": "a quarter of the converging trace cases decoded again with limit usize::MAX; forests with erasures (exact-zero LLRs); the robustness margin looks at computed LLRs only",
+    "C04": "arithmetic objects built alternately with new() and Default::default(); the predicate also evaluates the proved tracking bound against the real rule (C04Track)",
+    "C05": "a quarter of the float layered updates with exact magnitude ties, exact-zero and negative-zero extrinsic values",
+    "C06": "codes with equal n - k generated right after each other (both orders); one judged line per code: Encoder::from_h (in a forked child with a CPU-time alarm) must return the Staircase encoder and encode to codewords; girth_with_max(6) of rate 1/2 must be 6",
     "C07": "judged lines: Encoder::from_h accepts every k <= 4096 (quick: 1024) matrix and encodes to codewords; girth_with_max(6) = 6 for C2 and rate 1/2 k = 1024",
     "C08": "alist mutations that respell numbers (leading '+', leading zeros) and repeat a token at a non-adjacent position",
     "C09": "random insertion orders (shared generator with C02); 60 (600) matrices with more rows than columns (ParityOverdetermined branch)",
     "C10": "matrix families as in C01; reused-and-fresh both panicking counts as agreement",
     "C11": "bounds also 2^32 + small and usize::MAX - small",
-    "C12": "interleaver settings +-n (n = frame length) and +-1; count of bit-identical LLR frames among all frames handed to the decoders; AWGN sample count not a multiple of 8 "
+    "C12": "runs with three Eb/N0 points (the last frame must have the last point's LLR scale); interleaver settings +-n (n = frame length) and +-1; count of bit-identical LLR frames among all frames handed to the decoders; AWGN sample count not a multiple of 8 "
            "and a count of samples that received exactly zero noise",
-    "C13": "half of the failure-injection runs attach a reporter and require exactly one final Finished report; sequential single-worker single-point runs replayed in id order "
+    "C13": "half of the runs with an undelayed scripted decoder (workers outrun the collector); half of the failure-injection runs attach a reporter and require exactly one final Finished report; sequential single-worker single-point runs replayed in id order "
            "with small iteration counts and zero-iteration frames (also with wrong bits)",
     "C14": "BPSK with sigma in [1e-4, 1e4] and |r| in [1e-6, 1e6]; modulators called on owned arrays, reversed and strided views; 8PSK samples very close to the origin / far away "
            "at sigma in [1e-5, 10] (tolerance floor = rounding of the squared distances times 1/sigma^2)",
     "C15": "one Interleaver object (and a clone) used on blocks of other lengths first; puncture / interleave on reversed and strided views",
     "C16": "odd girth requests (3, 5, 7); infeasible configurations (wr * nrows < wc * ncols), for which C16V.mn_infeasible_never_succeeds proves that no run succeeds",
-    "C17": "every 15th history in a tall (66-100 x 2-6) or wide matrix starting with a full column / row",
-    "C19": "constructor patterns '01,1,0', '1,1,00', '+1,1,0', ...; names with non-ASCII bytes (NBSP, BOM, full-width digit); an alist file with an invalid UTF-8 byte in a line the "
+    "C17": "bulk operations through lazy iterator adaptors for lists of odd length; matrices with 262145+ rows judged by membership / weight queries; every 15th history in a tall (66-100 x 2-6) or wide matrix starting with a full column / row",
+    "C19": "constructor arguments with invalid UTF-8 bytes; constructor patterns '01,1,0', '1,1,00', '+1,1,0', ...; names with non-ASCII bytes (NBSP, BOM, full-width digit); an alist file with an invalid UTF-8 byte in a line the "
            "parser ignores; the Rust reference decoder runs first and a call sequence ends when it panics; predicates: constructor accepts a malformed pattern / an unknown name",
-    "C20": "mackay-neal with every option on tight shapes (backtracking and girth retries really happen; --search compared by re-running the reported seed); peg --girth; "
+    "C20": "encode on code lengths that are multiples of 7, 9, 11 with patterns up to length 14; invalid block sizes 1025, 4097, 17000; mackay-neal with every option on tight shapes (backtracking and girth retries really happen; --search compared by re-running the reported seed); peg --girth; "
            "ber with puncturing + interleaving + 8PSK (detail lines) and with the outer code (main file vs LDPC-only file, strictly more errors per line); ccsds k = 16384 for rate 4/5 "
            "in the quick tier; invalid inputs: patterns '01,1,1,0', '+1,...', '1,1,1,00', trailing comma, empty string; alist with a row index between nrows + 1 and ncols",
 }
